@@ -279,6 +279,10 @@ def run(ctx):
     # its own connection, with its own result whatever mode the object is in
     import ext_modes
     ext_modes.run(ctx)
+    # extension: a call addressed to an identifier that serviceImpl.Add has only reserved (the object is being
+    # activated) is answered - AddWin.tla, hosted by C16; in C04's scope is that every call gets its one answer
+    import ext_addwin
+    ext_addwin.run(ctx, scope="C04")
     # NextID is one atomic step: concurrent callers of one client never share an identifier
     ids = ctx.harness_json("system", ["c04-ids", "16", "150000" if thorough else "30000"], timeout=1800)
     ctx.failures(ids["failures"])
